@@ -353,9 +353,10 @@ theorem normalPass_keys {finals : List String} (L : List Spec) :
     · cases h
     · rename_i st1 h1; exact ih (stepsNormal_keys _ hk h1) h
 
-theorem stepMod_keys {s : Spec} {st st' : MState} {pk : String × Nat}
-    (hk : (st.props.map (·.1)).Nodup) (h : stepMod s st pk = .ok st') : (st'.props.map (·.1)).Nodup := by
-  unfold stepMod at h
+theorem stepMod_keys {finals : List String} {s : Spec} {st st' : MState} {pk : String × Nat}
+    (hk : (st.props.map (·.1)).Nodup) (h : stepMod finals s st pk = .ok st') : (st'.props.map (·.1)).Nodup := by
+  replace h := (stepMod_ok_core h).2
+  unfold stepModCore at h
   split at h
   · split at h
     · cases h; exact put_keys_nodup _ _ _ hk
@@ -366,8 +367,8 @@ theorem stepMod_keys {s : Spec} {st st' : MState} {pk : String × Nat}
       · cases h; exact hk
   · cases h; exact put_keys_nodup _ _ _ hk
 
-theorem stepsMod_keys {s : Spec} (prs : List (String × Nat)) :
-    ∀ {st st' : MState}, (st.props.map (·.1)).Nodup → stepsMod s prs st = .ok st' →
+theorem stepsMod_keys {finals : List String} {s : Spec} (prs : List (String × Nat)) :
+    ∀ {st st' : MState}, (st.props.map (·.1)).Nodup → stepsMod finals s prs st = .ok st' →
       (st'.props.map (·.1)).Nodup := by
   induction prs with
   | nil => intro st st' hk h; simp only [stepsMod] at h; cases h; exact hk
@@ -378,8 +379,8 @@ theorem stepsMod_keys {s : Spec} (prs : List (String × Nat)) :
     · cases h
     · rename_i st1 h1; exact ih (stepMod_keys hk h1) h
 
-theorem modPass_props_keys (L : List Spec) :
-    ∀ {st st' : MState}, (st.props.map (·.1)).Nodup → modPass L st = .ok st' →
+theorem modPass_props_keys {finals : List String} (L : List Spec) :
+    ∀ {st st' : MState}, (st.props.map (·.1)).Nodup → modPass finals L st = .ok st' →
       (st'.props.map (·.1)).Nodup := by
   induction L with
   | nil => intro st st' hk h; simp only [modPass] at h; cases h; exact hk
